@@ -13,7 +13,7 @@ verus! {
 //@map std::fmt::Formatter => Formatter
 //@map std::fmt::Result => FmtResult
 
-//@const protocol/src/topic_name.rs :: RESERVED_NAMESPACE
+//@consts protocol/src/topic_name.rs
 //@regex protocol/src/topic_name.rs :: COMPONENT_REGEX
 //@regex protocol/src/topic_name.rs :: TOPIC_REGEX
 //@type protocol/src/topic_name.rs :: TopicName
